@@ -60,7 +60,17 @@ func genCase(t *rapid.T) Case {
 	o := tsrun.GenOpts{MaxOps: pbt.Pick(30, 60), Hostile: true, Resize: true, Lock: false, MaxW: 10, MaxH: 4, MinW: 2, Urls: true}
 	c := Case{Cfg: tsrun.GenConfig(t, entries, o)}
 	c.Cfg.Charset = rapid.SampledFrom([]string{"UTF-8", "UTF-8", "ISO8859-1", "KOI8-R"}).Draw(t, "charset")
-	c.Ops = tsrun.GenOps(t, c.Cfg.W, c.Cfg.H, o)
+	ops := tsrun.GenOps(t, c.Cfg.W, c.Cfg.H, o)
+	// window titles and Suspend/Resume cycles: more output that has to be well-formed
+	for _, op := range ops {
+		switch rapid.IntRange(0, 24).Draw(t, "extra") {
+		case 0:
+			c.Ops = append(c.Ops, tsrun.Op{Kind: "settitle", N: rapid.IntRange(0, 99).Draw(t, "title")})
+		case 1:
+			c.Ops = append(c.Ops, tsrun.Op{Kind: "suspres"}, tsrun.Op{Kind: "sync"})
+		}
+		c.Ops = append(c.Ops, op)
+	}
 	return c
 }
 
